@@ -155,7 +155,7 @@ class Tables:
     def _local_table(self, name: str) -> Optional[ast.AST]:
         """The dict literal a local is bound to, when that is its only binding and the local is only read through
         `t[k]`, `t.get(k..)`, `k in t`."""
-        node = self.f.__dict__.get("raw_node", self.f.node)
+        node = self.f.node  # (after helper inlining: the table may be a helper's local)
         binds = [n for n in ast.walk(node) if isinstance(n, (ast.Assign, ast.AnnAssign))
                  and any(isinstance(t, ast.Name) and t.id == name for t in (n.targets if isinstance(n, ast.Assign) else [n.target]))]
         stores = [n for n in ast.walk(node) if isinstance(n, ast.Name) and n.id == name and isinstance(n.ctx, (ast.Store, ast.Del))]
@@ -581,8 +581,8 @@ class _Stmt:
                 nm = s.targets[0].id if isinstance(s.targets[0], ast.Name) else None
                 called = nm is not None and any(isinstance(c, ast.Call) and isinstance(c.func, ast.Name) and c.func.id == nm
                                                 for x in stmts[i + 1:] for c in ast.walk(x))
-                if not called or len(stmts[i + 1:]) > 4:
-                    look = None
+                if not called or len(stmts[i + 1:]) > 4 or any(isinstance(n, (ast.For, ast.While)) for x in stmts[i + 1:] for n in ast.walk(x)):
+                    look = None  # (a callee used inside a loop stays one conditional callee: the call is distributed where it is made)
             if look is not None:
                 rows = self.t.rows(look[0])
                 rest = stmts[i + 1:]
